@@ -1,5 +1,6 @@
 import MuduoVerif.Proofs.LogFile
 import MuduoVerif.Proofs.AsyncLog
+import MuduoVerif.Proofs.LogFileSkelTie
 /-!
 # C16 — every log record handed to the back-end is written exactly once, whole, in order
 
@@ -157,6 +158,26 @@ example :
         = [[1, 2, 3, 4, 5], [6]] := by
   refine ⟨_, rfl, ?_⟩
   decide
+
+/-- T1, statement order: in the functions of `LogFile` / `FileUtil::AppendFile` the model implements (constructor,
+`append`, `flush`, `append_unlocked`, `rollFile`, `getLogFileName`; `AppendFile`'s constructor, destructor, `append`,
+`flush`, `write`) the source performs the same stores (of the same expressions), engine calls, libc calls, lock
+acquisitions, assertions, `break`s and returns, in the same order and under the same nesting of the generated guards
+and of the write loop as `Model/LogFile.lean` (`Model/LogFileSkelDecl.lean`); re-extracted from /repo on every run
+(`Generated/LogFileSkel.lean`), proved in `Proofs/LogFileSkelTie.lean` -/
+theorem statement_order_tied :
+    Gen.LogFileSkel.ctor = LogFileSkel.Decl.ctor ∧
+    Gen.LogFileSkel.append = LogFileSkel.Decl.append ∧
+    Gen.LogFileSkel.flush = LogFileSkel.Decl.flush ∧
+    Gen.LogFileSkel.appendUnlocked = LogFileSkel.Decl.appendUnlocked ∧
+    Gen.LogFileSkel.rollFile = LogFileSkel.Decl.rollFile ∧
+    Gen.LogFileSkel.getLogFileName = LogFileSkel.Decl.getLogFileName ∧
+    Gen.LogFileSkel.fileCtor = LogFileSkel.Decl.fileCtor ∧
+    Gen.LogFileSkel.fileDtor = LogFileSkel.Decl.fileDtor ∧
+    Gen.LogFileSkel.fileAppend = LogFileSkel.Decl.fileAppend ∧
+    Gen.LogFileSkel.fileFlush = LogFileSkel.Decl.fileFlush ∧
+    Gen.LogFileSkel.fileWrite = LogFileSkel.Decl.fileWrite :=
+  LogFileSkel.skeletons_agree
 
 end MuduoVerif.C16
 
